@@ -122,18 +122,17 @@ func (t *KernMethod) TransferGovernTokens(ctx contract.KContext) (*contract.Resp
 	}
 	senderBalance.TotalBalance.Sub(senderBalance.TotalBalance, amount)
 
-	// 设置receiver余额
-	receiverBalance := utils.NewGovernTokenBalance()
-	receiverBalance.TotalBalance.Set(amount)
-
-	// 查询receiver余额并更新
+	// 查询receiver余额并更新, receiver已有的锁定金额保持不变
 	receiverKey := utils.MakeAccountBalanceKey(string(receiverBuf))
-	receiverBalanceBuf, err := ctx.Get(utils.GetGovernTokenBucket(), []byte(receiverKey))
-	if err == nil {
-		receiverBalanceOld := &utils.GovernTokenBalance{}
-		json.Unmarshal(receiverBalanceBuf, receiverBalanceOld)
-		receiverBalance.TotalBalance.Add(receiverBalance.TotalBalance, receiverBalanceOld.TotalBalance)
+	var receiverBalance *utils.GovernTokenBalance
+	if string(receiverBuf) == sender {
+		// 自己转给自己, 在同一份余额上操作
+		receiverBalance = senderBalance
+	} else {
+		// receiver不存在时balanceOf返回一个空余额
+		receiverBalance, _ = t.balanceOf(ctx, string(receiverBuf))
 	}
+	receiverBalance.TotalBalance.Add(receiverBalance.TotalBalance, amount)
 
 	// 更新sender余额
 	senderBalanceBuf, _ := json.Marshal(senderBalance)
@@ -144,7 +143,7 @@ func (t *KernMethod) TransferGovernTokens(ctx contract.KContext) (*contract.Resp
 	}
 
 	// 更新receiver余额
-	receiverBalanceBuf, _ = json.Marshal(receiverBalance)
+	receiverBalanceBuf, _ := json.Marshal(receiverBalance)
 	err = ctx.Put(utils.GetGovernTokenBucket(), []byte(receiverKey), receiverBalanceBuf)
 	if err != nil {
 		return nil, fmt.Errorf("transfer gov tokens failed, update receriver's balance")
